@@ -48,3 +48,261 @@ def normalize_ids_m(text, module):
 
 def call_sites(mtext, module):
     return [int(x) for x in re.findall(r'%s_wrapper\((\d+)' % re.escape(module), mtext)]
+
+
+# ---------------------------------------------------------------- .m files
+_GUARD = re.compile(r"isa\(varargin\{(\d+)\},'([^']*)'\)")
+_SIZE = re.compile(r"size\(varargin\{(\d+)\},(\d)\)==(\d+)")
+
+
+def _guards(cond):
+    g = [(int(i), c) for i, c in _GUARD.findall(cond)]
+    s = [(int(i), int(d), int(v)) for i, d, v in _SIZE.findall(cond)]
+    return g, s
+
+
+def _call(line, module):
+    """'[ a b ] = mod_wrapper(12, x, y);' -> (lhs text, id, arg text list)"""
+    m = re.search(r'^(?:(.*?)\s*=\s*)?%s_wrapper\((\d+)(?:,\s*(.*))?\);\s*$' % re.escape(module), line.strip())
+    if not m:
+        return None
+    args = [a.strip() for a in (m.group(3) or '').split(',') if a.strip()]
+    return (m.group(1) or '').strip(), int(m.group(2)), args
+
+
+def parse_m(text, module):
+    """Structure of one generated .m file (classdef, enumeration classdef or function file)."""
+    lines = text.split('\n')
+    out = {'kind': None, 'comment': [l for l in lines if l.startswith('%')]}
+    body = [l for l in lines if not l.startswith('%')]
+    first = next((l for l in body if l.strip()), '')
+    m = re.match(r'^classdef (\S+) < (.+?)\s*$', first)
+    if m and any(l.strip() == 'enumeration' for l in body):
+        out.update(kind='enum', name=m.group(1), base=m.group(2), values=[])
+        for l in body:
+            mm = re.match(r'^\s+(\w+)\((\d+)\)\s*$', l)
+            if mm:
+                out['values'].append((mm.group(1), int(mm.group(2))))
+        return out
+    if m:
+        out.update(kind='class', name=m.group(1), base=m.group(2), properties=[], ctor=None, delete=None,
+                   methods={}, statics={}, accessors={}, other_functions=[], serialize=None, deserialize=None)
+        _parse_class(body, out, module)
+        return out
+    m = re.match(r'^function varargout = (\S+)\(varargin\)\s*$', first)
+    if m:
+        out.update(kind='function', name=m.group(1), overloads=[], error=None)
+        cur = None
+        for l in body[1:]:
+            s = l.strip()
+            mm = re.match(r'^(if|elseif) length\(varargin\) == (\d+)(.*)$', s)
+            if mm:
+                g, sz = _guards(mm.group(3))
+                cur = {'arity': int(mm.group(2)), 'guards': g, 'sizes': sz, 'keyword': mm.group(1)}
+                out['overloads'].append(cur)
+                continue
+            c = _call(s, module)
+            if c and cur is not None:
+                cur.update(lhs=c[0], id=c[1], args=c[2])
+                continue
+            mm = re.match(r"^error\('(.*)'\);$", s)
+            if mm:
+                out['error'] = mm.group(1)
+        return out
+    out['kind'] = 'unknown'
+    return out
+
+
+def _parse_class(body, out, module):
+    i = 0
+    n = len(body)
+    section = None
+    cur_fn = None
+    while i < n:
+        s = body[i].strip()
+        if s == 'properties':
+            i += 1
+            while body[i].strip() != 'end':
+                out['properties'].append(body[i].strip())
+                i += 1
+        elif s == 'methods':
+            section = 'methods'
+        elif s == 'methods(Static = true)':
+            section = 'static'
+        else:
+            m = re.match(r'^function obj = (\S+)\(varargin\)$', s)
+            if m:
+                i = _parse_ctor(body, i, out, module)
+                continue
+            if s == 'function delete(obj)':
+                c = _call(body[i + 1], module)
+                out['delete'] = {'id': c[1], 'args': c[2]} if c else None
+                i += 2
+                continue
+            m = re.match(r'^function varargout = (\S+)\(this, varargin\)$', s)
+            if m:
+                i = _parse_branches(body, i + 1, out['methods'].setdefault(m.group(1), []), module, out, 'method', m.group(1))
+                continue
+            m = re.match(r'^function varargout = (\S+)\(varargin\)$', s)
+            if m and section == 'static':
+                i = _parse_branches(body, i + 1, out['statics'].setdefault(m.group(1), []), module, out, 'static', m.group(1))
+                continue
+            m = re.match(r'^function varargout = get\.(\S+)\(this\)$', s)
+            if m:
+                c = _call(body[i + 1], module)
+                out['accessors'].setdefault(m.group(1), {})['get'] = {'id': c[1], 'lhs': c[0], 'args': c[2]} if c else None
+                i += 2
+                continue
+            m = re.match(r'^function set\.(\S+)\(this, value\)$', s)
+            if m:
+                c = _call(body[i + 2], module)
+                out['accessors'].setdefault(m.group(1), {})['set'] = {'id': c[1], 'args': c[2]} if c else None
+                i += 3
+                continue
+            m = re.match(r'^function (.*)$', s)
+            if m and not s.startswith('function display') and not s.startswith('function disp'):
+                out['other_functions'].append(s)
+        i += 1
+
+
+def _parse_ctor(body, i, out, module):
+    ctor = {'name': re.match(r'^\s*function obj = (\S+)\(', body[i]).group(1), 'pointer': None, 'overloads': [],
+            'base_chain': None, 'ptr_assign': None, 'error': None}
+    out['ctor'] = ctor
+    i += 1
+    depth = 0
+    cur = None
+    in_ptr = False
+    while i < len(body):
+        s = body[i].strip()
+        if s.startswith('if (nargin == 2 || (nargin == 3') or s.startswith('if nargin == 2 && isa(varargin{1}, \'uint64\')'):
+            ctor['pointer'] = {'virtual': s.startswith('if (nargin == 2 ||'), 'upcast_id': None, 'collector_id': None,
+                               'returns_base': False, 'key_checked': 'uint64(5139824614673773682)' in s}
+            in_ptr = True
+        elif in_ptr and s.startswith('my_ptr = %s_wrapper(' % module):
+            ctor['pointer']['upcast_id'] = _call(s, module)[1]
+        elif in_ptr and (s.startswith('%s_wrapper(' % module) or s.startswith('base_ptr = %s_wrapper(' % module)):
+            c = _call(s, module)
+            ctor['pointer']['collector_id'] = c[1]
+            ctor['pointer']['returns_base'] = c[0] == 'base_ptr'
+            ctor['pointer']['collector_args'] = c[2]
+        elif s.startswith('elseif nargin == '):
+            in_ptr = False
+            m = re.match(r'^elseif nargin == (\d+)(.*)$', s)
+            g, sz = _guards(m.group(2))
+            cur = {'arity': int(m.group(1)), 'guards': g, 'sizes': sz}
+            ctor['overloads'].append(cur)
+        elif cur is not None and ('%s_wrapper(' % module) in s and not in_ptr:
+            c = _call(s, module)
+            if c:
+                cur.update(lhs=c[0], id=c[1], args=c[2])
+                cur = None
+        elif s.startswith("error('"):
+            ctor['error'] = s
+        elif s.startswith('obj = obj@'):
+            m = re.match(r'^obj = obj@(\S+)\(uint64\(5139824614673773682\), base_ptr\);$', s)
+            ctor['base_chain'] = m.group(1) if m else s
+        elif s.startswith('obj.ptr_'):
+            m = re.match(r'^obj\.(ptr_\S+) = my_ptr;$', s)
+            ctor['ptr_assign'] = m.group(1) if m else s
+            # the constructor function ends with the next 'end'
+            return i + 1
+        i += 1
+    return i
+
+
+def _parse_branches(body, i, sink, module, out, role, name):
+    """branches of a method / static method: 'if length(varargin) == N && ...' + call + return/end; stops at the
+    closing error(...) line."""
+    cur = None
+    while i < len(body):
+        s = body[i].strip()
+        m = re.match(r'^if length\(varargin\) == (\d+)(.*)$', s)
+        if m:
+            g, sz = _guards(m.group(2))
+            cur = {'arity': int(m.group(1)), 'guards': g, 'sizes': sz}
+            sink.append(cur)
+        else:
+            c = _call(s, module)
+            if c and cur is not None:
+                cur.update(lhs=c[0], id=c[1], args=c[2])
+                cur = None
+            elif c and name == 'string_serialize':
+                out['serialize'] = {'id': c[1]}
+            elif s.startswith("error('"):
+                return i + 1
+            elif s.startswith('function '):
+                return i
+        i += 1
+    return i
+
+
+# ---------------------------------------------------------------- wrapper .cpp
+def parse_routine(name, rid, body):
+    """Identity of a gateway routine read from its body."""
+    r = {'name': name, 'id': rid, 'role': None, 'check': None, 'unwraps': [], 'call': None, 'wraps': [], 'raw': body}
+    m = re.search(r'checkArguments\("([^"]*)",nargout,nargin(-1)?,(\d+)\);', body)
+    if m:
+        r['check'] = {'label': m.group(1), 'minus1': bool(m.group(2)), 'count': int(m.group(3))}
+    m = re.search(r'typedef std::shared_ptr<(.*)> Shared;', body)
+    if m:
+        r['shared'] = m.group(1)
+    m = re.search(r'typedef std::shared_ptr<(.*)> SharedBase;', body)
+    if m:
+        r['shared_base'] = m.group(1)
+    for mm in re.finditer(r'^\s*(\S.*?) (\w+) = (\*?)(unwrap\w*)<\s*(.*?)\s*>\(in\[(\d+)\](?:,\s*"([^"]*)")?\);\s*$', body, re.M):
+        r['unwraps'].append({'decl': mm.group(1), 'var': mm.group(2), 'deref': mm.group(3) == '*', 'fn': mm.group(4),
+                             'type': mm.group(5), 'index': int(mm.group(6)), 'ptr': mm.group(7)})
+    m = re.search(r'auto obj = unwrap_shared_ptr<(.*)>\(in\[0\], "([^"]*)"\);', body)
+    if m:
+        r['self'] = {'type': m.group(1), 'ptr': m.group(2)}
+        r['unwraps'] = [u for u in r['unwraps'] if u['var'] != 'obj']
+    if 'collector_' in body and '.insert(self)' in body and 'new Shared(new ' not in body and 'upcast' not in name:
+        r['role'] = 'collector'
+        r['collector'] = re.search(r'collector_(\w+)\.insert\(self\)', body).group(1)
+    elif 'static_pointer_cast' in body:
+        r['role'] = 'upcast'
+        r['cast'] = re.search(r'static_pointer_cast<(.*)>\(\*asVoid\)', body).group(1)
+    elif 'new Shared(new ' in body:
+        r['role'] = 'constructor'
+        m = re.search(r'Shared \*self = new Shared\(new (.*?)\((.*)\)\);\s*$', body, re.M)
+        r['call'] = {'callee': m.group(1), 'args': _split_args(m.group(2))}
+        r['collector'] = re.search(r'collector_(\w+)\.insert\(self\)', body).group(1)
+        r['base_out'] = 'out[1]' in body
+    elif 'delete self;' in body:
+        r['role'] = 'deconstructor'
+        r['collector'] = re.search(r'collector_(\w+)\.erase\(item\)', body).group(1) if 'erase(item)' in body else None
+    elif 'boost::archive::text_oarchive' in body:
+        r['role'] = 'serialize'
+    elif 'boost::archive::text_iarchive' in body:
+        r['role'] = 'deserialize'
+    else:
+        # method / static / function / property accessor: last statement(s)
+        stmts = [l.strip() for l in body.split('\n') if l.strip() and not l.strip().startswith('checkArguments')
+                 and ' = unwrap' not in l and ' = *unwrap' not in l and l.strip() not in ('{', '}')]
+        r['statements'] = stmts
+        if re.search(r'_get_\w+$', name) and r.get('self') and stmts and 'obj->' in stmts[-1] and '(' not in stmts[-1].split('obj->')[1].split(')')[0].replace('(', '', 0)[:0]:
+            pass
+        r['role'] = 'call'
+    return r
+
+
+def _split_args(s):
+    from .pyinv import split_top
+    return [a.strip() for a in split_top(s, ',', angle=True) if a.strip()]
+
+
+def parse_cpp(cpp):
+    sp = split_cpp(cpp)
+    pre = sp['pre']
+    out = {'routines': [parse_routine(n, i, b) for n, i, b in sp['routines']], 'cases': cases(sp['mex']),
+           'includes': re.findall(r'^#include <(.*)>$', pre, re.M),
+           'typedefs': re.findall(r'^typedef (.*) (\w+);$', pre, re.M),
+           'collectors': re.findall(r'^typedef std::set<std::shared_ptr<(.*)>\*> Collector_(\w+);$', pre, re.M),
+           'collector_vars': re.findall(r'^static Collector_(\w+) collector_(\w+);$', pre, re.M),
+           'delete_blocks': re.findall(r'for\(Collector_(\w+)::iterator iter = collector_(\w+)\.begin\(\);', pre),
+           'rtti': re.findall(r'types\.insert\(std::make_pair\(typeid\((.*?)\)\.name\(\), "([^"]*)"\)\);', pre),
+           'boost_exports': re.findall(r'^BOOST_CLASS_EXPORT_GUID\((.*), "(.*)"\);$', pre, re.M),
+           'pre': pre, 'mex': sp['mex']}
+    out['typedefs'] = [t for t in out['typedefs'] if not t[0].startswith('std::set<')]
+    return out
